@@ -11,7 +11,7 @@
      well_timed c ops       every clock reading is >= count * interval (so minID = 0 means "not set") and
                             every distribution index is in range; clocks need not be monotone, event times
                             are arbitrary                                                                *)
-From Verif Require Import Base.Sx Base.GoSem Model.Throttle Proofs.Throttle Proofs.ThrottleRedis.
+From Verif Require Import Base.Sx Base.GoSem Model.Throttle Proofs.Throttle Proofs.ThrottleRedis Proofs.ThrottleRules.
 From Coq Require Import Lia.
 
 (* the ring with its rotations and resets computes exactly the never-reset per-id counters: never panics,
@@ -170,6 +170,76 @@ Example c16_redis_nonvacuous :
   wf_cfg c = true /\ rtimed c 0 its = true /\
   rrun (rl_fresh c []) [] its = Ok [true; true; false; true; false; true].
 Proof. exact redis_single_process_nonvacuous. Qed.
+
+(* RULES WITH THEIR OWN limit_distribution (sub-model which = 11 of the check: drun = Plugin.isAllowed + getOrAdd over
+   rules that each carry a limit and a distribution; the last rule is the default rule with default_limit and the
+   plugin-level distribution).  spec_cfg p r gs is the SPECIFIED configuration of a limiter created for rule r:
+   limit = the rule's own limit, share(value) = round(ratio x THAT limit), default share = round((1 - sum) x THAT limit)
+   — default_limit does not occur in it unless r is the default rule.
+   Keys never share a budget, and the limiter of a key is the one of the rule its first event matched: *)
+Theorem c16_rule_keys_independent :
+  forall p es ds m' k, drun p [] es = (ds, Ok m') ->
+  match dkey_rule p k es with
+  | Some (r, gs) => pick (dfor_key p k) es ds =
+                    fst (lrun (spec_cfg p r gs) (lim0 (spec_cfg p r gs)) (dops_for p k gs es))
+  | None => pick (dfor_key p k) es ds = []
+  end.
+Proof. exact rule_keys_independent. Qed.
+Print Assumptions c16_rule_keys_independent.
+
+(* hence the decisions of every key are those of the reference semantics (never-reset counter per bucket id and slot)
+   run on that key's events alone with the limit and the specified shares of the matching rule — this equation is the
+   predicate c16_pred11 that the check evaluates on what the real Plugin decided *)
+Theorem c16_rule_key_decisions :
+  forall p es ds m' k r gs,
+  drun p [] es = (ds, Ok m') -> dkey_rule p k es = Some (r, gs) ->
+  1 <= w_count p -> 1 <= w_interval p -> forallb (d_timed p) es = true ->
+  pick (dfor_key p k) es ds = snd (s_run (spec_cfg p r gs) spec0 (dops_for p k gs es)).
+Proof. exact rule_key_decisions. Qed.
+Print Assumptions c16_rule_key_decisions.
+
+(* what the reference semantics lets through under a rule with its own distribution, per bucket id: every slot within
+   the specified share of THAT rule; the total within the sum of the shares, which is the rule's limit up to the rounding
+   of the shares (half up, so at most 1/2 event per share: 100 * total <= 100 * limit + 50 * (ratios + 1)), and within
+   the rule's limit itself when no product ratio x limit is rounded; unlisted values are rejected only when no share
+   has room (hist_attr).  groups_ok: ratios within 0..100 %, values not empty and not listed twice, sum <= 100 %. *)
+Theorem c16_rule_distr_shares :
+  forall p r gs, 0 <= r_limit r -> groups_ok gs = true -> gs <> [] ->
+  forall ops, 1 <= w_count p -> 1 <= w_interval p -> well_timed (spec_cfg p r gs) ops = true ->
+  Forall (fun o => 0 <= o_size o) ops ->
+  (forall id slot, passed_size (hist_of (spec_cfg p r gs) ops) id slot <= cell_limit (spec_cfg p r gs) slot) /\
+  (forall id, passed_size_id (hist_of (spec_cfg p r gs) ops) id <=
+              deflimit (spec_cfg p r gs) + sumZ (shares (spec_cfg p r gs))) /\
+  (forall id, 100 * passed_size_id (hist_of (spec_cfg p r gs) ops) id <= 100 * r_limit r + 50 * (len gs + 1)) /\
+  (Forall (fun q => (q * r_limit r) mod 100 = 0) (100 - gsum gs :: map fst gs) ->
+   forall id, passed_size_id (hist_of (spec_cfg p r gs) ops) id <= r_limit r) /\
+  hist_attr (spec_cfg p r gs) (rev ops) (hist_of (spec_cfg p r gs) ops).
+Proof. exact rule_distr_shares. Qed.
+Print Assumptions c16_rule_distr_shares.
+
+(* "never more than the rule's limit" at full strength is refuted by the rounding of the LISTED shares: limit 1 split
+   50 % / 50 % gives shares 1 + 1 (0.5 rounds half up; default share 0), and one key passes 2 events in bucket 2.
+   (Not the rounding of the default ratio to a whole percent, finding C16-default-share-rounding, which needs ratios
+   finer than a percent: here every ratio is a whole percent.) *)
+Theorem c16_rule_shares_limit_refuted :
+  let c := spec_cfg p_round r_round gs_round in
+  let ops := [ {| o_now := 20; o_ts := 20; o_size := 1; o_dv := Some 0 |};
+               {| o_now := 20; o_ts := 20; o_size := 1; o_dv := Some 1 |} ] in
+  groups_ok gs_round = true /\ wf_cfg c = true /\ well_timed c ops = true /\
+  deflimit c :: shares c = [0; 1; 1] /\
+  snd (s_run c spec0 ops) = [true; true] /\ passed_size_id (hist_of c ops) 2 = 2 /\ r_limit r_round = 1.
+Proof. exact rule_shares_limit_refuted. Qed.
+Print Assumptions c16_rule_shares_limit_refuted.
+
+(* non-vacuity: rule (a = x) with limit 10 split 40 % / 30 % (default 30 %) next to default_limit 5000; one key sends
+   5 + 4 + 5 events in one bucket: 4 + 3 + 3 pass, whatever default_limit is; the predicate holds of the model's run *)
+Example c16_rule_distr_nonvacuous :
+  let es := repeat (ev10 (Some 0)) 5 ++ repeat (ev10 (Some 1)) 4 ++ repeat (ev10 None) 5 in
+  deflimit (spec_cfg p10 ru10 gs10) :: shares (spec_cfg p10 ru10 gs10) = [3; 4; 3] /\
+  forallb (d_timed p10) es = true /\
+  fst (drun p10 [] es) = repeat true 4 ++ [false] ++ repeat true 3 ++ [false] ++ repeat true 3 ++ [false; false] /\
+  c16_pred11 p10 es (sx_of_drun (drun p10 [] es)) = true.
+Proof. exact rule_distr_nonvacuous. Qed.
 
 (* non-vacuity: 3 buckets of 10ns, limit 2, shares (1) + default 1; the clock jumps over a window and steps
    back, event times in the past / future / out of order; the hypotheses hold and decisions are mixed *)
